@@ -21,7 +21,7 @@ from ..engine import Finding
 
 ID = 'C16'
 TITLE = 'ulist, dictattr and Dict implement ordered set/key algebra without side effects'
-LEAN_FILES = ['Basic', 'USet', 'DictCall', 'DAHeap', 'Tree', 'DictAdd', 'USetDriver', 'USetLemmas', 'DictCallLemmas', 'DictCallOrder', 'DAHeapLemmas',
+LEAN_FILES = ['Basic', 'USet', 'DictCall', 'DAHeap', 'Tree', 'DictAdd', 'DADotted', 'USetDriver', 'USetLemmas', 'DictCallLemmas', 'DictCallOrder', 'DAHeapLemmas',
               'TreeLemmas', 'TreeMerge', 'C16']
 RULE = ('distinct protocol lines on which the implementation returned a value or the error the statement prescribes, '
         'excluding operations on an empty ulist / empty mapping with an empty operand')
